@@ -30,6 +30,16 @@ func init() {
 		"sort.Strings":       inSortStrings,
 		"regexp.MustCompile": func(e *Exec, fn *ssa.Function, a []Value) Value { return &Pointer{Slot: valp(&RegexV{Pattern: e.goString(a[0])}), Obj: &Object{Kind: "regexp"}} },
 
+		"(*regexp.Regexp).Match":              inRegexMatch,
+		"(*regexp.Regexp).MatchString":        inRegexMatch,
+		"(*regexp.Regexp).FindSubmatch":       inRegexFindSubmatch,
+		"(*regexp.Regexp).FindStringSubmatch": inRegexFindSubmatch,
+		"strconv.ParseUint":                   inParseUint,
+		"net/url.QueryUnescape":               func(e *Exec, fn *ssa.Function, a []Value) Value { return e.urlUnescape(a[0].(*StringV), true) },
+		"net/url.PathUnescape":                func(e *Exec, fn *ssa.Function, a []Value) Value { return e.urlUnescape(a[0].(*StringV), false) },
+		"unicode/utf8.DecodeRuneInString":     inDecodeRune,
+		"unicode.ToUpper":                     inToUpper,
+
 		"bytes.Equal":           func(e *Exec, fn *ssa.Function, a []Value) Value { return e.winEq(e.win(a[0]), e.win(a[1])) },
 		"bytes.HasPrefix":       func(e *Exec, fn *ssa.Function, a []Value) Value { return e.hasPrefix(e.win(a[0]), e.win(a[1])) },
 		"bytes.HasSuffix":       func(e *Exec, fn *ssa.Function, a []Value) Value { return e.hasSuffix(e.win(a[0]), e.win(a[1])) },
@@ -174,7 +184,11 @@ func (e *Exec) winEq(a, b win) *Term {
 func (e *Exec) hasPrefix(s, p win) *Term {
 	c := e.ctx
 	pb := e.winBytes(p)
-	conj := []*Term{c.Sle(c.Int(int64(len(pb))), s.len)}
+	fits := c.Sle(c.Int(int64(len(pb))), s.len)
+	if fits.IsFalse() {
+		return fits
+	}
+	conj := []*Term{fits}
 	for k, t := range pb {
 		conj = append(conj, c.Eq(e.winAt(s, c.Int(int64(k))), t))
 	}
@@ -185,7 +199,11 @@ func (e *Exec) hasSuffix(s, p win) *Term {
 	c := e.ctx
 	pb := e.winBytes(p)
 	n := c.Int(int64(len(pb)))
-	conj := []*Term{c.Sle(n, s.len)}
+	fits := c.Sle(n, s.len)
+	if fits.IsFalse() {
+		return fits
+	}
+	conj := []*Term{fits}
 	base := c.Sub(s.len, n)
 	for k, t := range pb {
 		conj = append(conj, c.Eq(e.winAt(s, c.Add(base, c.Int(int64(k)))), t))
@@ -498,4 +516,151 @@ func inSortStrings(e *Exec, fn *ssa.Function, a []Value) Value {
 		}
 	}
 	return nil
+}
+
+// ------------------------------------------------------------ strconv / url / utf8
+
+func isHexT(c *Ctx, b *Term) *Term {
+	return c.Or(c.And(c.Ule(c.BV('0', 8), b), c.Ule(b, c.BV('9', 8))),
+		c.And(c.Ule(c.BV('a', 8), b), c.Ule(b, c.BV('f', 8))),
+		c.And(c.Ule(c.BV('A', 8), b), c.Ule(b, c.BV('F', 8))))
+}
+
+func hexValT(c *Ctx, b *Term) *Term {
+	d := c.Sub(b, c.BV('0', 8))
+	lo := c.Add(c.Sub(b, c.BV('a', 8)), c.BV(10, 8))
+	up := c.Add(c.Sub(b, c.BV('A', 8)), c.BV(10, 8))
+	return c.Ite(c.Ule(b, c.BV('9', 8)), d, c.Ite(c.Ule(c.BV('a', 8), b), lo, up))
+}
+
+func isDigitT(c *Ctx, b *Term) *Term {
+	return c.And(c.Ule(c.BV('0', 8), b), c.Ule(b, c.BV('9', 8)))
+}
+
+// inParseUint is exact on "0x"/"0X" + 1..16 hex digits, on decimal numbers of
+// up to 19 digits without a leading zero (and "0"), on the empty string and on
+// strings containing a byte that cannot occur in any Go integer literal;
+// everything else (octal, binary, underscores, overflow) is over-approximated
+// by "any value, any error". Only base 0 / bitSize 64 is modelled.
+func inParseUint(e *Exec, fn *ssa.Function, a []Value) Value {
+	c := e.ctx
+	base, bits := a[1].(*Term), a[2].(*Term)
+	if !base.IsConst() || !bits.IsConst() || base.SVal() != 0 || bits.SVal() != 64 {
+		panic(unsupported{"strconv.ParseUint with base/bitSize other than 0/64"})
+	}
+	bs := e.strBytes(a[0].(*StringV))
+	mkErr := func() Value { return e.newError("strconv.ParseUint") }
+	n := len(bs)
+	if n == 0 {
+		return TupleV{c.Int(0), mkErr()}
+	}
+	// hex
+	if n >= 3 && n <= 18 {
+		cond := c.And(c.Eq(bs[0], c.BV('0', 8)), c.Or(c.Eq(bs[1], c.BV('x', 8)), c.Eq(bs[1], c.BV('X', 8))))
+		for _, b := range bs[2:] {
+			cond = c.And(cond, isHexT(c, b))
+		}
+		if e.branch(cond) {
+			v := c.Int(0)
+			for _, b := range bs[2:] {
+				v = c.BOr(c.Bin(OpShl, v, c.Int(4)), c.Zext(hexValT(c, b), 64))
+			}
+			return TupleV{v, (*IfaceV)(nil)}
+		}
+	}
+	// decimal
+	if n <= 19 {
+		cond := c.True
+		for _, b := range bs {
+			cond = c.And(cond, isDigitT(c, b))
+		}
+		if n > 1 {
+			cond = c.And(cond, c.Ne(bs[0], c.BV('0', 8)))
+		}
+		if e.branch(cond) {
+			v := c.Int(0)
+			for _, b := range bs {
+				v = c.Add(c.Mul(v, c.Int(10)), c.Zext(c.Sub(b, c.BV('0', 8)), 64))
+			}
+			return TupleV{v, (*IfaceV)(nil)}
+		}
+	}
+	// a byte outside the literal alphabet: certain syntax error
+	bad := c.False
+	for _, b := range bs {
+		ok := c.Or(isHexT(c, b), c.Eq(b, c.BV('x', 8)), c.Eq(b, c.BV('X', 8)), c.Eq(b, c.BV('o', 8)), c.Eq(b, c.BV('O', 8)), c.Eq(b, c.BV('_', 8)))
+		bad = c.Or(bad, c.Not(ok))
+	}
+	if e.branch(bad) {
+		return TupleV{c.Int(0), mkErr()}
+	}
+	e.note("summary:ParseUint over-approximated")
+	v := e.fresh("ParseUint.val", 64)
+	if e.branch(e.fresh("ParseUint.err", 0)) {
+		return TupleV{v, mkErr()}
+	}
+	return TupleV{v, (*IfaceV)(nil)}
+}
+
+// urlUnescape models net/url.QueryUnescape / PathUnescape: %XX decoding, '+' to
+// space in query mode, error on a malformed escape. It forks on "is this byte a
+// '%'" where that is not decided by constants or the path condition.
+func (e *Exec) urlUnescape(s *StringV, query bool) Value {
+	c := e.ctx
+	bs := e.strBytes(s)
+	var out []*Term
+	for i := 0; i < len(bs); {
+		b := bs[i]
+		if e.branch(c.Eq(b, c.BV('%', 8))) {
+			if i+2 >= len(bs) {
+				return TupleV{e.constString(""), e.newError("url.EscapeError")}
+			}
+			okHex := c.And(isHexT(c, bs[i+1]), isHexT(c, bs[i+2]))
+			if !e.branch(okHex) {
+				return TupleV{e.constString(""), e.newError("url.EscapeError")}
+			}
+			v := c.BOr(c.Bin(OpShl, hexValT(c, bs[i+1]), c.BV(4, 8)), hexValT(c, bs[i+2]))
+			out = append(out, v)
+			i += 3
+			continue
+		}
+		if query {
+			out = append(out, c.Ite(c.Eq(b, c.BV('+', 8)), c.BV(' ', 8), b))
+		} else {
+			out = append(out, b)
+		}
+		i++
+	}
+	return TupleV{e.mkString(out), (*IfaceV)(nil)}
+}
+
+// inDecodeRune / inToUpper: exact for ASCII; for bytes >= 0x80 the rune is an
+// unconstrained value (they only feed Func.IsExported, which no property names).
+func inDecodeRune(e *Exec, fn *ssa.Function, a []Value) Value {
+	c := e.ctx
+	s := a[0].(*StringV)
+	if s.Len.IsConst() && s.Len.SVal() == 0 {
+		return TupleV{c.BV(0xFFFD, 32), c.Int(0)}
+	}
+	if !s.Len.IsConst() {
+		if !e.branch(c.Slt(c.Int(0), s.Len)) {
+			return TupleV{c.BV(0xFFFD, 32), c.Int(0)}
+		}
+	}
+	b := e.byteAt(s.B, s.Off)
+	if b.IsConst() && b.Val < 0x80 {
+		return TupleV{c.Zext(b, 32), c.Int(1)}
+	}
+	ascii := c.Ult(b, c.BV(0x80, 8))
+	r := c.Ite(ascii, c.Zext(b, 32), e.fresh("rune", 32))
+	size := c.Ite(ascii, c.Int(1), e.fresh("runesize", 64))
+	return TupleV{r, size}
+}
+
+func inToUpper(e *Exec, fn *ssa.Function, a []Value) Value {
+	c := e.ctx
+	r := a[0].(*Term)
+	lower := c.And(c.Ule(c.BV('a', 32), r), c.Ule(r, c.BV('z', 32)))
+	ascii := c.Ult(r, c.BV(0x80, 32))
+	return c.Ite(lower, c.Sub(r, c.BV(32, 32)), c.Ite(ascii, r, e.fresh("toupper", 32)))
 }
